@@ -75,13 +75,16 @@ let () =
           o.o_threads in
         let x = match o.o_exc with
           | None -> "-"
-          | Some ((a, f), p) -> string_of_z a ^ ":" ^ string_of_z f ^ ":" ^ String.concat "+" (List.map string_of_z p) in
-        Printf.printf "T=%s;R=%s;X=%s;P=%s;C=%s;TM=%s;M=%s;U=%s\n"
+          | Some (((a, f), p), _) -> string_of_z a ^ ":" ^ string_of_z f ^ ":" ^ String.concat "+" (List.map string_of_z p) in
+        let rs = match o.o_exc with
+          | Some (_, Some l) -> "#" ^ String.concat "" (List.map (fun c -> String.make 1 (Char.chr (int_of_z c))) l)
+          | _ -> "" in
+        Printf.printf "T=%s;R=%s;X=%s;P=%s;C=%s;TM=%s;M=%s;U=%s%s\n"
           (String.concat "," th)
           (if int_of_z o.o_requesting < 0 then "-" else string_of_z o.o_requesting)
           x (oz o.o_pid) (oz o.o_ctime) (string_of_z o.o_time)
           (String.concat "," (List.map (fun (b, s) -> string_of_z b ^ ":" ^ string_of_z s) o.o_modules))
-          (String.concat "," (List.map (fun ((b, s), nm) -> string_of_z b ^ ":" ^ string_of_z s ^ ":" ^ string_of_z nm) o.o_unloaded))
+          (String.concat "," (List.map (fun ((b, s), nm) -> string_of_z b ^ ":" ^ string_of_z s ^ ":" ^ string_of_z nm) o.o_unloaded)) rs
       end
     done
   with End_of_file -> ()
